@@ -342,6 +342,9 @@ pub fn scope(name: &str) -> Scope {
         // capturing groups inside alternations that are tried, abandoned and replaced
         // by a later branch (no quantifiers: every capture question is about rollback)
         "ALTC" => Scope::new("ALTC", &["a", "b", "(a)", "(?:ab)", "(ab)", "(a|ab)"], &[], true, &['a', 'b']),
+        // a required iteration of an enclosing repeat that must be empty and
+        // contains a min-0 variable-length repeat (zero-length-match history)
+        "HIST" => Scope::new("HIST", &["(?:(?:a|bb)*$)", "(?:(?:a|bb)*)", "(?:^(?:a|bb)*)", "b"], &["{2}", "{2,3}", "{1,2}", "+"], false, &['a', 'b']),
         // literal prefixes that overlap themselves (prefix-scan shortcut), longer inputs
         "LP" => Scope::new("LP", &["a", "b", "aa", "ab", "aab", "aba", "abab"], &["*", "?", "+"], false, &['a', 'b']),
         // group nesting: capturing groups around / beside possibly-empty terms
